@@ -113,6 +113,29 @@ CHECKS["C15"] = dict(
          "permutations (even and odd n, tight day budgets) are re-derived by TLC.",
     note="Exhaustive for n<=4 (5 thorough) and short sequences only.")
 
+CHECKS["C05"] = dict(
+    category="model_checking", design_ref="DESIGN.md section 2 (C05)",
+    technique="tour length and nearest/farthest-neighbour bounds defined in TLA+ (native and BigNat); TLC checks the "
+              "bounds enclose every tour for all small matrices; all of them replayed; recorded evaluations with "
+              "storage-edge entries validated in BigNat arithmetic",
+    text="MC_Tour.tla: for all matrices of the scope and all tours NearSum <= Len <= FarSum and BigNat = native. Every "
+         "matrix/tour of the scope and seeded random symmetric/asymmetric matrices (n<=12, entries at 127/128, "
+         "32767/32768, 2^31, 2^32, up to 10^12, several input dtypes) go through Instance/TourLength; Trace_TSP demands: "
+         "stored matrix = given matrix, evaluate = cyclic edge sum, declared lower <= true length <= declared upper, "
+         "symmetry flag <=> symmetric.",
+    note="Exhaustive for n=3 over 0..2 (n=4 over 0..1 thorough); larger only sampled.")
+CHECKS["C06"] = dict(
+    category="model_checking", design_ref="DESIGN.md section 2 (C06)",
+    technique="EA/FEA reversal machine in TLA+ (exact length, permutation, O(1) delta = true delta, EA monotone, "
+              "table index in range) model-checked; kernels replayed on the whole scope; real solve() loops traced "
+              "through a stub process and validated by TLC, with numba bounds checking on",
+    text="RevMove.tla explores all symmetric matrices/start tours/move sequences of the scope. The two compiled kernels "
+         "are called on every (matrix, tour, i, j) of the scope with an over-long frequency table whose changed cells are "
+         "observed; the real solve() loops run on random, constant (every tour = upper bound), clustered and shipped "
+         "instances; Trace_TSP checks every registered pair: permutation, y = exact length, EA never longer, table "
+         "indices within 0..FarSum. IndexError under NUMBA_BOUNDSCHECK=1 is a violation.",
+    note="Symmetric instances only (as the property). n<=5 exhaustive, else sampled seeds/budgets.")
+
 NOT_YET = {
 }
 
